@@ -125,10 +125,19 @@ impl SymbolSlab {
         let ss = self.symbol_size;
         let dest_start = dest * ss;
         let src_start = src * ss;
+        // Check the byte ranges themselves: a deserialized slab (serde_support) need not satisfy
+        // data.len() == count * symbol_size.
+        let len = self.data.len();
+        assert!(
+            ss <= len
+                && dest_start <= len - ss
+                && src_start <= len - ss
+                && dest_start.abs_diff(src_start) >= ss,
+            "symbol ranges out of bounds or overlapping"
+        );
 
         // SAFETY:
-        // - dest/src are in-bounds (asserts above), so both ranges are within self.data.
-        // - dest != src, and every symbol range has length `ss`, so ranges do not overlap.
+        // - both ranges are within self.data and do not overlap (assert above).
         // - we only create one mutable slice (dest) and one shared slice (src).
         unsafe {
             let ptr = self.data.as_mut_ptr();
